@@ -808,6 +808,43 @@ example : ∀ r, save exObj32 {} = .ok r → r.ok = true → save r.obj {} = .ok
   · have : ∀ s ∈ exObj32.secs, s.stype = BitVec.ofNat 32 SHT_NULL → s.size = 0 := by decide
     exact this
 
+/-! ### `layoutNW` alone is not enough -/
+
+/-- section 1 is SHT_NULL-typed and carries the file offset 0x1008 (`set_offset` is never applied to an
+    SHT_NULL-typed member); a first PT_LOAD over sections 1 and 3 marks it generated; the second PT_LOAD
+    lists it first, so `seg_start_pos` = 0x1008 lies between the cursor 0x1004 and the place 0x1010 where
+    its fresh member `.text`-like section 2 (align 16) is put -/
+def exNullHead : Obj :=
+  { cls := .c64, enc := .lsb, hdr := some exHdr64,
+    secs := [ { SecBuf.fresh .c64 0 with index := 0 },
+              { SecBuf.fresh .c64 0 with index := 1, offset := 0x1008 },
+              { SecBuf.fresh .c64 1 with index := 2, size := 4, addrAlign := 16, flags := 2 },
+              { SecBuf.fresh .c64 1 with index := 3, size := 4, addrAlign := 1, flags := 2 } ],
+    segs := [ { stype := 1, vaddr := 0x400000, align := 0x1000, secs := [1, 3], index := 0 },
+              { stype := 1, vaddr := 0x400000, align := 16, secs := [1, 2], index := 1 } ] }
+
+/-- **Why `layoutStartsB` / `HeadOk` is a separate hypothesis.**  `exNullHead` meets `layoutNW`, `ResaveOkC`
+    (`resaveOkB`), `NoZeroOffset`, has empty SHT_NULL-typed sections and no file-occupying section 0, and its
+    `save` succeeds — but `layoutStartsB` is false (the second segment's first member is SHT_NULL-typed:
+    `HeadOk` fails), `StepNoWrap` fails (`resaveOkRB` false), and the SECOND save of the saved object returns
+    `false`: the address 0x400008 = vaddr + 0x1010 − 0x1008 assigned by the first save gives `req_offset` 8 <
+    `cur_offset` = 0x1004 − 0x1008 (mod 2^64).  So `layoutNW` alone does not imply `StepNoWrap`.
+    (Model-level object: `section::set_offset` is not public, an SHT_NULL-typed section with a non-zero
+    offset can only come from a loaded file; outside the writer domain, not a finding.) -/
+theorem layoutNW_not_sufficient_witness :
+    layoutNW (preSave exNullHead) exHdr64 = true ∧ resaveOkB exNullHead exHdr64 = true ∧
+    (∀ g ∈ exNullHead.segs, (g.offsetSet && g.offset == 0) = false) ∧
+    (∀ s ∈ exNullHead.secs, s.stype = BitVec.ofNat 32 SHT_NULL → s.size = 0) ∧
+    (∀ s ∈ exNullHead.secs, s.Occ → s.index ≠ 0) ∧
+    layoutStartsB (preSave exNullHead) exHdr64 = false ∧
+    exNullHead.segs.all (headOkB exNullHead.secs) = false ∧
+    resaveOkRB exNullHead exHdr64 = false ∧
+    (match save exNullHead {} with
+     | .ok r => r.ok && (match save r.obj {} with | .ok r2 => !r2.ok | .error _ => false)
+     | .error _ => false) = true := by
+  refine ⟨by decide +kernel, by decide +kernel, by decide, by decide, by decide, by decide +kernel,
+    by decide +kernel, by decide +kernel, by decide +kernel⟩
+
 end ElfioVerif.C06
 
 namespace ElfioVerif.Compose
